@@ -17,6 +17,9 @@ USER = [
     ['unit', 'B1', 'x1', ['scaled', 'i:1000', 'x0']],
     ['unit', 'B1', 'x1b', ['term', [['i:10', 1], ['x0', 1], ['i:100', 1]]]],
     ['unit', 'B1', 'x1c', ['scaled', 'D:0.001', 'x1']],
+    ['unit', 'B1', 'x512', ['scaled', 'i:512', 'x0']],
+    ['unit', 'B1', 'x2e70', ['scaled', 'i:1180591620717411303424', 'x0']],
+    ['unit', 'B1', 'x2e61', ['scaled', 'i:2305843009213693952', 'x0']],
     ['type', 'B2', 'y0', None],
     ['dtype', 'V', [['B1', 1], ['B2', -1]], None, None],
     ['unit', 'V', 'x1/y0', ['derive', ['x1', 'y0']]],
